@@ -1874,7 +1874,7 @@ WHERE state = ?`
 		query += " AND received_at < ?"
 		args = append(args, req.Before.UnixNano())
 	}
-	query += " ORDER BY received_at DESC LIMIT ?"
+	query += " ORDER BY received_at DESC, id DESC LIMIT ?"
 	args = append(args, limit)
 
 	rows, err := s.db.QueryContext(context.Background(), query, args...)
